@@ -141,8 +141,27 @@ def judge(ctx: Ctx, res: Dict[str, Any], oracle: Dict[str, Any]) -> List[str]:
     return failed
 
 
+def kf_module_shadowed(w: Dict[str, Any]) -> bool:
+    """Known finding: a class/function re-exported under the very name of the module that defines it takes over the
+    module's registry key; later imports from that module find a non-module and re-export nothing.  Matches only when
+    the object that is not where the property wants it comes from a module whose qualified name is the new name of
+    another re-exported object of the project."""
+    o = w.get("origin", {})
+    if "project" not in o or not set(w.get("failed", [])) <= {"MovedOnce", "MembersFollow", "NotUnderOrigin", "LookupByOldAndNewName", "XrefByOldAndNewName"}:
+        return False
+    proj = {**o["project"], "family": "", "meta": {}}
+    exp = P.expected_reexports(proj)
+    taken = {x["new"] for x in exp}
+    d = w.get("detail", {}).get("MovedOnce")
+    if not d:
+        return False
+    x = next((e for e in exp if e["new"] == d["expected"]), None)
+    return x is not None and ".".join(P.mod_path(proj, x["origin"] - 1)) in (taken - {x["new"]})
+
+
 def run(ctx: Ctx) -> int:
     rng = random.Random(ctx.seed)
+    ctx.register_matcher("defining-module-shadowed-by-reexported-namesake", kf_module_shadowed)
     projs = c07_projects(ctx.quick, rng)
     results = procrun.explore(ctx, projs, record_states=False)
     oracles: Dict[int, Dict[str, Any]] = {}
